@@ -144,6 +144,22 @@ async def s_quit(ctl):
     await ctl.cmd(c, "QUIT")
 
 
+async def s_pipelined_quit(ctl):
+    """a passive command and QUIT in one segment: the two handlers run side by side, and so do their replies"""
+    c = await ctl.client()
+    await ctl.login(c)
+    await ctl.send(c, "EPSV\r\nQUIT")
+
+
+async def s_pipelined_passive(ctl):
+    c = await ctl.client()
+    await ctl.login(c)
+    await ctl.send(c, "PASV\r\nEPSV\r\nNOOP")
+    await ctl.data(c)
+    await ctl.cmd(c, "LIST")
+    await ctl.send(c, "EPSV\r\nFOO\r\nQUIT")
+
+
 async def s_abor(ctl):
     c = await ctl.client()
     await ctl.login(c)
@@ -255,6 +271,11 @@ def corpus(thorough=False):
         Scenario("pool@listener-gated", s_epsv_only, server_kwargs={"data_ports": [41001, 41002]}, net_setup=gate_listener),
     ]
     sc.append(Scenario("retr-unread", s_retr_unread, tree=TREE_HUGE, server_kwargs=small_blocks))
+    # pipelined commands, under several iteration orders of the server's task sets
+    for salt in range(8 if thorough else 6):
+        sc.append(Scenario("pipelined-quit~order%d" % salt, s_pipelined_quit, server_kwargs={"maximum_connections": 2}, task_salt=salt))
+    for salt in (0, 1, 5):
+        sc.append(Scenario("pipelined-passive~order%d" % salt, s_pipelined_passive, server_kwargs={"data_ports": [41001, 41002]}, task_salt=salt))
     if thorough:
         for backend in ("pathio", "async"):
             sc += [
